@@ -5,7 +5,8 @@
 (* the returned pointer is the argument itself (alias) or one never seen before  *)
 (* (fresh), the class of the result and the error text after                     *)
 (* RedactUserinfoInURLError (untouched, or the class of the URL it prints);      *)
-(* "mutate" names the object its owner changed and how.  Every line carries the  *)
+(* "mutate" names the object its owner changed and how; `errs' lists what every   *)
+(* *url.Error kept so far reads as now.  Every line carries the  *)
 (* classes of ALL objects after the step.  Accepted iff it is a behaviour of     *)
 (* RedactHist with Impl = "clone" -- except that a call may return its argument  *)
 (* itself when there is nothing to change (the statement does not forbid it).    *)
@@ -17,7 +18,7 @@ tvars == <<vars, l>>
 TInit == Init /\ l = 1
 Ev == Trace[l]
 
-TReset == Ev.op = "reset" /\ heap' = Ev.objects /\ UNCHANGED <<results, last, memo, pcache, steps>>
+TReset == Ev.op = "reset" /\ heap' = Ev.objects /\ errs' = <<>> /\ UNCHANGED <<results, last, memo, pcache, scratch, steps>>
 TCall  == /\ Ev.op = "call"
           /\ Ev.n \in DOMAIN heap
           /\ Ev.arg = heap[Ev.n]                                       \* the harness and the spec agree on the argument
@@ -26,14 +27,17 @@ TCall  == /\ Ev.op = "call"
           /\ IF Ev.arg.user = "none" THEN Ev.alias
              ELSE Ev.fresh \/ (Ev.alias /\ Redact(Ev.arg) = Ev.arg)    \* FreshAcrossCalls / ResultsAreNew
           /\ heap' = IF Ev.fresh THEN Append(heap, Redact(Ev.arg)) ELSE heap
-          /\ UNCHANGED <<results, last, memo, pcache, steps>>
+          /\ errs' = IF Ev.err.set THEN Append(errs, [text |-> Ev.err, view |-> FALSE]) ELSE errs
+          /\ UNCHANGED <<results, last, memo, pcache, scratch, steps>>
 TMutate == /\ Ev.op = "mutate"
            /\ Ev.n \in DOMAIN heap
            /\ heap' = [heap EXCEPT ![Ev.n] = Mut(@, Ev.f)]
-           /\ UNCHANGED <<results, last, memo, pcache, steps>>
+           /\ UNCHANGED errs
+           /\ UNCHANGED <<results, last, memo, pcache, scratch, steps>>
 TNext == /\ l <= Len(Trace)
          /\ l' = l + 1
          /\ (TReset \/ TCall \/ TMutate)
+         /\ Ev.errs = [k \in DOMAIN errs' |-> errs'[k].text]             \* ErrTextsAreValues, observed: every kept error reads as written
          /\ Ev.objects = heap'                                         \* CallsWriteNothing, observed
 TSpec == TInit /\ [][TNext]_tvars
 =============================================================================
